@@ -250,50 +250,208 @@ func (p *Program) collectInlineSites(pk *packages.Package, file *ast.File, calle
 
 	// handle one statement that sits in a statement list
 	var handleList func(list []ast.Stmt)
-	handleStmt := func(st ast.Stmt) {
+	// isNewHelperCall: the call resolves to a helper known to lookup
+	isNewHelperCall := func(c *ast.CallExpr) bool {
+		obj, _ := calleeOf(c)
+		if obj == nil {
+			return false
+		}
+		_, _, _, ok := lookup(obj)
+		return ok
+	}
+	// isEffect: a node whose evaluation is ordered relative to calls (another call, a receive)
+	isEffect := func(n ast.Node) bool {
+		switch x := n.(type) {
+		case *ast.CallExpr:
+			if tv, ok := pk.TypesInfo.Types[x.Fun]; ok && tv.IsType() {
+				return false // conversion
+			}
+			if id, ok := x.Fun.(*ast.Ident); ok {
+				if _, isB := pk.TypesInfo.Uses[id].(*types.Builtin); isB {
+					switch id.Name {
+					case "len", "cap", "make", "new", "append", "min", "max", "real", "imag", "complex":
+						return false
+					}
+				}
+			}
+			return true
+		case *ast.UnaryExpr:
+			return x.Op == token.ARROW
+		}
+		return false
+	}
+	// hoistable finds, among the expressions roots (in lexical order), a call of a new helper that is
+	// evaluated unconditionally and before every other call/receive of these expressions.
+	hoistable := func(roots []ast.Node) *ast.CallExpr {
+		var found *ast.CallExpr
+		var effects []ast.Node
+		for _, r := range roots {
+			if r == nil || found != nil {
+				continue
+			}
+			var stack []ast.Node
+			ast.Inspect(r, func(n ast.Node) bool {
+				if n == nil {
+					stack = stack[:len(stack)-1]
+					return false
+				}
+				if found != nil {
+					return false
+				}
+				if _, isLit := n.(*ast.FuncLit); isLit {
+					return false
+				}
+				if c, ok := n.(*ast.CallExpr); ok && isNewHelperCall(c) {
+					// unconditional: no enclosing && / || right operand
+					cond := false
+					var child ast.Node = c
+					for i := len(stack) - 1; i >= 0; i-- {
+						if b, ok := stack[i].(*ast.BinaryExpr); ok && (b.Op == token.LAND || b.Op == token.LOR) && b.Y == child {
+							cond = true
+						}
+						child = stack[i]
+					}
+					first := true
+					for _, e := range effects {
+						if e.End() <= c.Pos() {
+							first = false
+						}
+					}
+					if !cond && first {
+						found = c
+						return false
+					}
+				}
+				if isEffect(n) {
+					effects = append(effects, n)
+				}
+				stack = append(stack, n)
+				return true
+			})
+		}
+		return found
+	}
+	exprNodes := func(es []ast.Expr) []ast.Node {
+		var out []ast.Node
+		for _, e := range es {
+			out = append(out, e)
+		}
+		return out
+	}
+	stmtRoots := func(s ast.Stmt) []ast.Node {
+		switch x := s.(type) {
+		case *ast.ExprStmt:
+			return []ast.Node{x.X}
+		case *ast.AssignStmt:
+			return append(exprNodes(x.Lhs), exprNodes(x.Rhs)...)
+		case *ast.ReturnStmt:
+			return exprNodes(x.Results)
+		case *ast.DeclStmt:
+			var out []ast.Node
+			if gd, ok := x.Decl.(*ast.GenDecl); ok && gd.Tok == token.VAR {
+				for _, sp := range gd.Specs {
+					if vs, ok := sp.(*ast.ValueSpec); ok {
+						out = append(out, exprNodes(vs.Values)...)
+					}
+				}
+			}
+			return out
+		}
+		return nil
+	}
+	handleStmt := func(st ast.Stmt, wrapAlways bool) {
 		var call *ast.CallExpr
-		var rebuild func(results []string) string // the statement with the call replaced by the result variables
 		replStart, replEnd := st.Pos(), st.End()
 		prefix, suffix := "", ""
-		simple := func(s ast.Stmt) (*ast.CallExpr, func([]string) string) {
-			switch x := s.(type) {
-			case *ast.ExprStmt:
-				if c, ok := x.X.(*ast.CallExpr); ok {
-					return c, func([]string) string { return "" }
-				}
-			case *ast.AssignStmt:
-				if len(x.Rhs) == 1 {
-					if c, ok := x.Rhs[0].(*ast.CallExpr); ok {
-						lhs := text(x.Lhs[0].Pos(), x.Lhs[len(x.Lhs)-1].End())
-						tok := x.Tok.String()
-						return c, func(rs []string) string { return lhs + " " + tok + " " + strings.Join(rs, ", ") }
-					}
-				}
-			case *ast.ReturnStmt:
-				if len(x.Results) == 1 {
-					if c, ok := x.Results[0].(*ast.CallExpr); ok {
-						return c, func(rs []string) string { return "return " + strings.Join(rs, ", ") }
-					}
-				}
+		head, tailOf := "", func(rs []string) string { return "" }
+		lineAt := func(pos token.Pos) string {
+			ps := p.Fset.PositionFor(pos, false)
+			return fmt.Sprintf("/*line %s:%d:%d*/", ps.Filename, ps.Line, ps.Column)
+		}
+		// around builds head/tail so that [from,to) is reproduced with the call replaced by the results
+		around := func(from, to token.Pos) {
+			c := call
+			head = text(from, c.Pos())
+			tailOf = func(rs []string) string {
+				return strings.Join(rs, ", ") + lineAt(c.End()) + text(c.End(), to)
 			}
-			return nil, nil
 		}
 		switch x := st.(type) {
+		case *ast.ExprStmt:
+			if c, ok := x.X.(*ast.CallExpr); ok && isNewHelperCall(c) {
+				call = c // result (if any) unused
+			} else if call = hoistable(stmtRoots(st)); call != nil {
+				around(st.Pos(), st.End())
+			}
+		case *ast.AssignStmt, *ast.ReturnStmt, *ast.DeclStmt:
+			if call = hoistable(stmtRoots(st)); call != nil {
+				around(st.Pos(), st.End())
+			}
 		case *ast.IfStmt:
 			if x.Init != nil {
-				if c, rb := simple(x.Init); c != nil {
-					call, rebuild = c, rb
+				if call = hoistable(stmtRoots(x.Init)); call != nil {
+					// { inline; <init'>; if cond {...} }   (the init statement keeps its scope inside the block)
 					prefix = "{\n"
+					around(x.Init.Pos(), x.Init.End())
+					old := tailOf
 					rest := text(x.Cond.Pos(), x.End())
-					cpos := p.Fset.PositionFor(x.Cond.Pos(), false)
-					suffix = fmt.Sprintf("\nif /*line %s:%d:%d*/%s\n}", cpos.Filename, cpos.Line, cpos.Column, rest)
+					cpos := x.Cond.Pos()
+					tailOf = func(rs []string) string {
+						return old(rs) + "\nif " + lineAt(cpos) + rest + "\n}"
+					}
+					if es, ok := x.Init.(*ast.ExprStmt); ok && es.X == call {
+						head = ""
+						tailOf = func(rs []string) string { return ";\nif " + lineAt(cpos) + rest + "\n}" }
+					}
+				} else {
+					if call = hoistable([]ast.Node{x.Cond}); call != nil {
+						// { <init>; inline; if cond' {...} }
+						prefix = "{\n" + lineAt(x.Init.Pos()) + text(x.Init.Pos(), x.Init.End()) + "\n"
+						around(x.Cond.Pos(), x.End())
+						head = "if " + lineAt(x.Cond.Pos()) + head
+						old := tailOf
+						tailOf = func(rs []string) string { return old(rs) + "\n}" }
+					}
+				}
+			} else if call = hoistable([]ast.Node{x.Cond}); call != nil {
+				if wrapAlways {
+					prefix = "{\n"
+					around(x.Cond.Pos(), x.End())
+					head = "if " + lineAt(x.Cond.Pos()) + head
+					old := tailOf
+					tailOf = func(rs []string) string { return old(rs) + "\n}" }
+				} else {
+					replEnd = x.Cond.End()
+					around(x.Cond.Pos(), x.Cond.End())
+					head = "if " + lineAt(x.Cond.Pos()) + head
 				}
 			}
-		default:
-			call, rebuild = simple(st)
+		case *ast.SwitchStmt:
+			if x.Init == nil && x.Tag != nil {
+				if call = hoistable([]ast.Node{x.Tag}); call != nil {
+					replEnd = x.Tag.End()
+					around(x.Tag.Pos(), x.Tag.End())
+					head = "switch " + lineAt(x.Tag.Pos()) + head
+				}
+			}
+		case *ast.RangeStmt:
+			if call = hoistable([]ast.Node{x.X}); call != nil {
+				replEnd = x.X.End()
+				around(st.Pos(), x.X.End())
+			}
 		}
 		if call == nil {
 			return
+		}
+		if wrapAlways && prefix == "" {
+			return
+		}
+		rebuild := func(rs []string) string {
+			t := tailOf(rs)
+			if head == "" && t == "" {
+				return ""
+			}
+			return head + t
 		}
 		obj, recvExpr := calleeOf(call)
 		if obj == nil {
@@ -405,13 +563,13 @@ func (p *Program) collectInlineSites(pk *packages.Package, file *ast.File, calle
 			if b.name == "_" {
 				continue
 			}
-			fmt.Fprintf(&sb, "var %s %s = %s\n_ = %s\n", b.name, b.typ, b.tmp, b.name)
+			fmt.Fprintf(&sb, "%s := %s\n_ = %s\n", b.name, b.tmp, b.name)
 		}
 		for i, nm := range rnames {
 			if nm == "_" {
 				continue
 			}
-			fmt.Fprintf(&sb, "var %s %s\n_ = %s\n", nm, rtypes[i], nm)
+			fmt.Fprintf(&sb, "%s := %s\n_ = %s\n", nm, rvars[i], nm)
 		}
 		// body with returns rewritten
 		var rets []*ast.ReturnStmt
@@ -472,13 +630,22 @@ func (p *Program) collectInlineSites(pk *packages.Package, file *ast.File, calle
 	}
 	handleList = func(list []ast.Stmt) {
 		for _, st := range list {
-			handleStmt(st)
+			handleStmt(st, false)
+			// else-if chains: the nested if is not an element of a statement list
+			if ifs, ok := st.(*ast.IfStmt); ok {
+				for e := ifs.Else; e != nil; {
+					nested, isIf := e.(*ast.IfStmt)
+					if !isIf {
+						break
+					}
+					handleStmt(nested, true)
+					e = nested.Else
+				}
+			}
 		}
 	}
 	ast.Inspect(caller.Body, func(n ast.Node) bool {
 		switch x := n.(type) {
-		case *ast.FuncLit:
-			return false // keep closures as they are
 		case *ast.BlockStmt:
 			handleList(x.List)
 		case *ast.CaseClause:
@@ -533,7 +700,7 @@ func (p *Program) noCapture(pk *packages.Package, callerFile *ast.File, fd *ast.
 		return false
 	}
 	ok := true
-	ast.Inspect(fd.Body, func(n ast.Node) bool {
+	visit := func(n ast.Node) bool {
 		id, isID := n.(*ast.Ident)
 		if !isID {
 			return true
@@ -559,7 +726,13 @@ func (p *Program) noCapture(pk *packages.Package, callerFile *ast.File, fd *ast.
 			ok = false
 		}
 		return ok
-	})
+	}
+	ast.Inspect(fd.Body, visit)
+	// the parameter, result and receiver types are written out at the call site as well
+	ast.Inspect(fd.Type, visit)
+	if fd.Recv != nil {
+		ast.Inspect(fd.Recv, visit)
+	}
 	return ok
 }
 
@@ -629,5 +802,53 @@ func LoadNormalized(repoDir, tier string, overlay map[string][]byte) (*Program, 
 		prog = np
 	}
 	prog.Normalized = append(prog.Normalized, notes...)
+	prog.Normalized = append(prog.Normalized, prog.remainingNewHelperCalls()...)
 	return prog, nil
+}
+
+// remainingNewHelperCalls lists calls of new helpers that the pre-pass left in place (diagnostics).
+func (p *Program) remainingNewHelperCalls() []string {
+	recorded := recordedAnchors()
+	if len(recorded) < 100 {
+		return nil
+	}
+	newObj := map[types.Object]bool{}
+	for _, fn := range p.Funcs {
+		if fn.Parent() != nil || fn.Synthetic != "" || fn.Object() == nil || isNonProductPkg(funcPkgPath(fn)) {
+			continue
+		}
+		if _, ok := recorded[funcID(fn)]; ok {
+			continue
+		}
+		if _, renamed := p.alias[fn]; renamed {
+			continue
+		}
+		newObj[fn.Object()] = true
+	}
+	var out []string
+	for _, pk := range p.Pkgs {
+		for _, f := range pk.Syntax {
+			for _, d := range f.Decls {
+				fd, ok := d.(*ast.FuncDecl)
+				if !ok || fd.Body == nil {
+					continue
+				}
+				if obj := pk.TypesInfo.Defs[fd.Name]; obj != nil && newObj[obj] {
+					continue
+				}
+				ast.Inspect(fd.Body, func(n ast.Node) bool {
+					id, ok := n.(*ast.Ident)
+					if !ok {
+						return true
+					}
+					if obj := pk.TypesInfo.Uses[id]; obj != nil && newObj[obj] {
+						out = append(out, fmt.Sprintf("left in place: %s used in %s at %s", id.Name, fd.Name.Name, p.Pos(id.Pos())))
+					}
+					return true
+				})
+			}
+		}
+	}
+	sort.Strings(out)
+	return out
 }
